@@ -704,9 +704,10 @@ func (db *DB) recoverJournalRO() error {
 			if jr == nil {
 				jr = journal.NewReader(fr, dropper{db.s, fd}, strict, checksum)
 			} else {
-				if err := jr.Reset(fr, dropper{db.s, fd}, strict, checksum); err != nil {
-					return err
-				}
+				// Ignore the error here, as the read-write recovery does: Reset
+				// returns the previous journal's accumulated error, which is a
+				// plain io.EOF once that journal has been read to its end.
+				_ = jr.Reset(fr, dropper{db.s, fd}, strict, checksum)
 			}
 
 			// Replay journal to memdb.
